@@ -3,6 +3,21 @@ From Coq Require Import ZArith Bool List Lia.
 From PV Require Import Base.Outcome Circuit.Imp.
 Import ListNotations.
 
+Section ctree_ind2.
+Variable P : ctree -> Prop.
+Hypothesis Hleaf : forall id, P (Leaf id).
+Hypothesis Hser : forall l, Forall P l -> P (CSer l).
+Hypothesis Hpar : forall l, Forall P l -> P (CPar l).
+Fixpoint ctree_ind2 (t : ctree) : P t :=
+  match t with
+  | Leaf id => Hleaf id
+  | CSer l => Hser l ((fix go (l : list ctree) : Forall P l :=
+                         match l with [] => Forall_nil _ | c :: r => Forall_cons _ (ctree_ind2 c) (go r) end) l)
+  | CPar l => Hpar l ((fix go (l : list ctree) : Forall P l :=
+                         match l with [] => Forall_nil _ | c :: r => Forall_cons _ (ctree_ind2 c) (go r) end) l)
+  end.
+End ctree_ind2.
+
 Section Facts.
 Variable K : Type.
 Variable k0 : K.
@@ -141,4 +156,308 @@ Qed.
 
 Lemma forallb_nth (p : E -> bool) v i : forallb p v = true -> i < length v -> p (nth i v Inf) = true.
 Proof. rewrite forallb_forall. intros H Hi. apply H. apply nth_In. auto. Qed.
+
+(* ---- parallel -------------------------------------------------------------------------------------------- *)
+Definition val (c : ctree) (i : nat) : E := spec c (leaf_at i).
+Definition all_inf (c : ctree) : bool := forallb ez_is_inf (specv c).
+Definition inf_free (c : ctree) : bool := forallb (fun x => negb (ez_is_inf x)) (specv c).
+
+(* the state of the loop after the children [P] have been processed *)
+Record PInv (P : list ctree) (sh : list bool) (paths : list (list E)) (no : nat) : Prop := mkPInv {
+  pi_len : length sh = n;
+  pi_sh : forall i, i < n -> nth i sh false = existsb (fun c => ez_is_zero (val c i)) P;
+  pi_paths : paths = rev (map specv (filter (fun c => negb (all_inf c)) P));
+  pi_no : no = length (filter all_inf P);
+  pi_class : forall c, In c P -> all_inf c = true \/ inf_free c = true }.
+
+Lemma specv_nth c i : i < n -> nth i (specv c) Inf = val c i.
+Proof. intro Hi. apply (proj2 (specv_is c)). auto. Qed.
+
+Lemma specv_len c : length (specv c) = n.
+Proof. apply (proj1 (specv_is c)). Qed.
+
+Lemma all_inf_val c i : all_inf c = true -> i < n -> val c i = Inf.
+Proof.
+  unfold all_inf. intros H Hi. pose proof (forallb_nth _ _ i H) as Hn. rewrite specv_len in Hn.
+  specialize (Hn Hi). rewrite specv_nth in Hn by auto. destruct (val c i); simpl in *; congruence.
+Qed.
+
+Lemma inf_free_val c i : inf_free c = true -> i < n -> ez_is_inf (val c i) = false.
+Proof.
+  unfold inf_free. intros H Hi. pose proof (forallb_nth _ _ i H) as Hn. rewrite specv_len in Hn.
+  specialize (Hn Hi). rewrite specv_nth in Hn by auto. apply negb_true_iff in Hn. auto.
+Qed.
+
+(* the non-infinite values at index i are those of the children that are not open *)
+Lemma fin_filter P i : i < n -> (forall c, In c P -> all_inf c = true \/ inf_free c = true) ->
+  filter (fun v => negb (ez_is_inf v)) (map (fun c => val c i) P) =
+  map (fun c => val c i) (filter (fun c => negb (all_inf c)) P).
+Proof.
+  intros Hi. induction P as [|c r IH]; intro Hc; simpl; auto.
+  rewrite IH by (intros; apply Hc; simpl; auto).
+  destruct (Hc c (or_introl eq_refl)) as [Ha|Hf].
+  - rewrite Ha. simpl. rewrite (all_inf_val c i Ha Hi). simpl. auto.
+  - assert (Hn : all_inf c = false).
+    { destruct (all_inf c) eqn:E; auto. pose proof (all_inf_val c i E Hi) as H1. pose proof (inf_free_val c i Hf Hi) as H2.
+      rewrite H1 in H2. discriminate. }
+    rewrite Hn. simpl. rewrite (inf_free_val c i Hf Hi). simpl. auto.
+Qed.
+
+Lemma sums_nth : forall (paths : list (list E)) acc g i,
+  i < n -> vec_is acc g -> (forall Z, In Z paths -> length Z = n) ->
+  nth i (fold_left (fun a Z => vadd a (map ez_inv Z)) paths acc) Inf =
+  fold_left (fun a v => ez_add a (ez_inv v)) (map (fun Z => nth i Z Inf) paths) (g i).
+Proof.
+  induction paths as [|Z r IH]; intros acc g i Hi Hacc Hlen; simpl.
+  - apply (proj2 Hacc). auto.
+  - rewrite (IH (vadd acc (map ez_inv Z)) (fun j => ez_add (g j) (ez_inv (nth j Z Inf)))); auto.
+    + apply vadd_is; auto. split; [rewrite map_length; apply Hlen; simpl; auto|].
+      intros j Hj. rewrite (nth_indep _ Inf (ez_inv Inf)) by (rewrite map_length, Hlen; simpl; auto).
+      apply map_nth.
+    + intros Z' HZ'. apply Hlen. simpl. auto.
+Qed.
+
+Lemma sums_len : forall (paths : list (list E)) acc,
+  length acc = n -> (forall Z, In Z paths -> length Z = n) ->
+  length (fold_left (fun a Z => vadd a (map ez_inv Z)) paths acc) = n.
+Proof.
+  induction paths as [|Z r IH]; intros acc Hacc Hlen; simpl; auto.
+  apply IH; [|intros; apply Hlen; simpl; auto].
+  unfold Imp.vadd. rewrite map_length, combine_length, map_length, Hacc, Hlen by (simpl; auto). lia.
+Qed.
+
+Lemma nth_map_d {A B} (f : A -> B) l d d' i : i < length l -> nth i (map f l) d' = f (nth i l d).
+Proof. intro Hi. rewrite (nth_indep _ d' (f d)) by (rewrite map_length; auto). apply map_nth. Qed.
+
+Lemma existsb_map_eq {A B} (p : B -> bool) (f : A -> B) l : existsb p (map f l) = existsb (fun x => p (f x)) l.
+Proof. induction l; simpl; auto. rewrite IHl. auto. Qed.
+
+Definition spec_par (l : list ctree) (i : nat) : E := spec (CPar l) (leaf_at i).
+
+Lemma spec_par_zero l i : existsb (fun c => ez_is_zero (val c i)) l = true -> spec_par l i = Zf k0.
+Proof.
+  unfold spec_par. destruct l as [|c r]; [discriminate|]. intro H.
+  change (spec (CPar (c :: r)) (leaf_at i)) with
+    (let vals := map (fun c0 => val c0 i) (c :: r) in
+     if existsb ez_is_zero vals then Zf k0
+     else match filter (fun v => negb (ez_is_inf v)) vals with
+          | [] => Inf
+          | _ => ez_inv (fold_left (fun acc v => ez_add acc (ez_inv v)) (filter (fun v => negb (ez_is_inf v)) vals) (Zf k0))
+          end).
+  cbv zeta. rewrite existsb_map_eq. rewrite H. auto.
+Qed.
+
+Lemma spec_par_nonzero l i : l <> [] -> i < n ->
+  existsb (fun c => ez_is_zero (val c i)) l = false ->
+  (forall c, In c l -> all_inf c = true \/ inf_free c = true) ->
+  spec_par l i =
+  match map (fun c => val c i) (filter (fun c => negb (all_inf c)) l) with
+  | [] => Inf
+  | fin => ez_inv (fold_left (fun acc v => ez_add acc (ez_inv v)) fin (Zf k0))
+  end.
+Proof.
+  intros Hne Hi Hz Hc. unfold spec_par. destruct l as [|c r]; [congruence|].
+  change (spec (CPar (c :: r)) (leaf_at i)) with
+    (let vals := map (fun c0 => val c0 i) (c :: r) in
+     if existsb ez_is_zero vals then Zf k0
+     else match filter (fun v => negb (ez_is_inf v)) vals with
+          | [] => Inf
+          | _ => ez_inv (fold_left (fun acc v => ez_add acc (ez_inv v)) (filter (fun v => negb (ez_is_inf v)) vals) (Zf k0))
+          end).
+  cbv zeta. rewrite existsb_map_eq, Hz. rewrite (fin_filter (c :: r) i Hi Hc).
+  destruct (map (fun c0 => val c0 i) (filter (fun c0 => negb (all_inf c0)) (c :: r))); auto.
+Qed.
+
+Lemma forallb_id_nth sh i : forallb (fun b : bool => b) sh = true -> i < length sh -> nth i sh false = true.
+Proof. rewrite forallb_forall. intros H Hi. apply H. apply nth_In. auto. Qed.
+
+Lemma filter_len_all {A} (p : A -> bool) l : length (filter p l) = length l -> forallb p l = true.
+Proof.
+  induction l as [|a r IH]; simpl; auto. destruct (p a); simpl; intro H.
+  - apply IH. lia.
+  - pose proof (filter_len_le p r). lia.
+Qed.
+
+Lemma filter_neg_empty {A} (p : A -> bool) l : forallb p l = true -> filter (fun x => negb (p x)) l = [].
+Proof. induction l as [|a r IH]; simpl; auto. destruct (p a); simpl; [auto|discriminate]. Qed.
+
+Lemma PInv_snoc_open P sh paths no c :
+  PInv P sh paths no -> all_inf c = true -> PInv (P ++ [c]) sh paths (S no).
+Proof.
+  intros [H1 H2 H3 H4 H5] Hc. constructor; auto.
+  - intros i Hi. rewrite H2 by auto. rewrite existsb_app. simpl. rewrite (all_inf_val c i Hc Hi). simpl.
+    rewrite !orb_false_r. auto.
+  - rewrite filter_app. simpl. rewrite Hc. simpl. rewrite app_nil_r. auto.
+  - rewrite filter_app, app_length. simpl. rewrite Hc. simpl. lia.
+  - intros c' Hin. apply in_app_or in Hin. destruct Hin as [Hin|[<-|[]]]; auto.
+Qed.
+
+Lemma PInv_snoc_path P sh paths no c :
+  PInv P sh paths no -> inf_free c = true -> all_inf c = false ->
+  PInv (P ++ [c]) (map (fun bz : bool * E => fst bz || ez_is_zero (snd bz)) (combine sh (specv c))) (specv c :: paths) no.
+Proof.
+  intros [H1 H2 H3 H4 H5] Hf Hc. constructor.
+  - rewrite map_length, combine_length, H1, specv_len. lia.
+  - intros i Hi.
+    rewrite (nth_map_d _ _ (false, Inf)) by (rewrite combine_length, H1, specv_len; lia).
+    rewrite combine_nth by (rewrite H1, specv_len; auto). simpl.
+    rewrite H2, specv_nth by auto. rewrite existsb_app. simpl. rewrite orb_false_r. auto.
+  - rewrite filter_app. simpl. rewrite Hc. simpl. rewrite map_app, rev_app_distr. simpl. rewrite H3. auto.
+  - rewrite filter_app, app_length. simpl. rewrite Hc. simpl. lia.
+  - intros c' Hin. apply in_app_or in Hin. destruct Hin as [Hin|[<-|[]]]; auto.
+Qed.
+
+Lemma sh_or_nozero sh c : length sh = n ->
+  Nat.ltb 0 (count ez_is_zero (specv c)) = false ->
+  map (fun bz : bool * E => fst bz || ez_is_zero (snd bz)) (combine sh (specv c)) = sh.
+Proof.
+  intros Hl Hz. apply count_none in Hz. rewrite forallb_forall in Hz.
+  apply (nth_ext _ _ false false).
+  - rewrite map_length, combine_length, Hl, specv_len. lia.
+  - intros i Hi. rewrite map_length, combine_length, Hl, specv_len in Hi.
+    rewrite (nth_map_d _ _ (false, Inf)) by (rewrite combine_length, Hl, specv_len; lia).
+    rewrite combine_nth by (rewrite Hl, specv_len; auto). simpl.
+    assert (Hx : negb (ez_is_zero (nth i (specv c) Inf)) = true) by (apply Hz, nth_In; rewrite specv_len; lia).
+    apply negb_true_iff in Hx. rewrite Hx, orb_false_r. auto.
+Qed.
+
+Lemma par_loop_sound total : forall rest P sh paths no v,
+  (forall c, In c rest -> forall z, impl c = Ok z -> z = specv c) ->
+  PInv P sh paths no -> total = length (P ++ rest) -> (P ++ rest) <> [] ->
+  par_loop impl rest total sh paths no = Ok v ->
+  vec_is v (spec_par (P ++ rest)).
+Proof.
+  induction rest as [|c r IH]; intros P sh paths no v Himpl HI Htot Hne H.
+  - rewrite app_nil_r in *. destruct HI as [H1 H2 H3 H4 H5]. simpl in H.
+    destruct (forallb (fun b => b) sh) eqn:Eall.
+    + inversion H; subst v. split; [apply (proj1 zeros_is)|]. intros i Hi.
+      rewrite (proj2 zeros_is) by auto. symmetry. apply spec_par_zero.
+      rewrite <- H2 by auto. apply forallb_id_nth; auto. lia.
+    + destruct (Nat.eqb no total) eqn:Eno.
+      * inversion H; subst v. apply Nat.eqb_eq in Eno.
+        assert (Hallinf : forallb all_inf P = true) by (apply filter_len_all; lia).
+        split; [apply repeat_length|]. intros i Hi.
+        rewrite nth_repeat.
+        assert (Hz : existsb (fun c => ez_is_zero (val c i)) P = false).
+        { clear -Hallinf Hi leaf_len. induction P as [|c r IHr]; simpl in *; auto.
+          apply andb_true_iff in Hallinf. destruct Hallinf as [Ha Hr]. rewrite (all_inf_val c i Ha Hi). simpl. auto. }
+        rewrite spec_par_nonzero; auto. rewrite filter_neg_empty; auto.
+      * inversion H; subst v. apply Nat.eqb_neq in Eno. unfold par_result. rewrite H3, rev_involutive.
+        set (pv := map specv (filter (fun c => negb (all_inf c)) P)).
+        assert (Hpl : forall Z, In Z pv -> length Z = n).
+        { intros Z HZ. unfold pv in HZ. apply in_map_iff in HZ. destruct HZ as (c & <- & _). apply specv_len. }
+        pose proof (sums_len pv (zeros n) (proj1 zeros_is) Hpl) as Hsl.
+        split; [rewrite map_length, combine_length; lia|]. intros i Hi.
+        rewrite (nth_map_d _ _ (Inf, true)) by (rewrite combine_length; lia).
+        rewrite combine_nth by lia. simpl.
+        destruct (nth i sh true) eqn:Esh.
+        -- assert (Hs : nth i sh false = true) by (rewrite (nth_indep _ false true) by lia; auto).
+           symmetry. apply spec_par_zero. rewrite <- H2; auto.
+        -- assert (Hs : nth i sh false = false) by (rewrite (nth_indep _ false true) by lia; auto).
+           rewrite spec_par_nonzero; auto; [|rewrite <- H2; auto].
+           rewrite (sums_nth pv (zeros n) (fun _ => Zf k0) i Hi zeros_is Hpl).
+           unfold pv. rewrite map_map.
+           rewrite (map_ext_in (fun x => nth i (specv x) Inf) (fun c => val c i)) by (intros; apply specv_nth; auto).
+           destruct (map (fun c => val c i) (filter (fun c => negb (all_inf c)) P)) eqn:Efin; auto.
+           exfalso. apply Eno. rewrite H4, Htot.
+           assert (Hem : filter (fun c => negb (all_inf c)) P = []) by (destruct (filter (fun c => negb (all_inf c)) P); [auto|discriminate]).
+           clear -Hem. induction P as [|c r IHr]; simpl in *; auto. destruct (all_inf c); simpl in *; [f_equal; auto|discriminate].
+  - simpl in H. destruct (impl c) as [z| |] eqn:Ez; simpl in H; try discriminate.
+    pose proof (Himpl c (or_introl eq_refl) z Ez) as Hz. subst z.
+    assert (Hassoc : P ++ c :: r = (P ++ [c]) ++ r) by (rewrite <- app_assoc; auto).
+    assert (Himpl' : forall c0, In c0 r -> forall z, impl c0 = Ok z -> z = specv c0) by (intros; apply Himpl; simpl; auto).
+    destruct (Nat.eqb (count ez_is_inf (specv c)) n) eqn:Einf.
+    + apply count_all in Einf; [|apply specv_len]. rewrite Hassoc in *.
+      eapply IH; eauto. apply PInv_snoc_open; auto.
+    + destruct (Nat.ltb 0 (count ez_is_inf (specv c))) eqn:Einf2; [discriminate|].
+      apply count_none in Einf2.
+      assert (Hnot : all_inf c = false).
+      { destruct (all_inf c) eqn:E; auto. unfold all_inf in E. apply (count_all _ _ (specv_len c)) in E. congruence. }
+      destruct (Nat.eqb (count ez_is_zero (specv c)) n) eqn:Ezero.
+      * inversion H; subst v. apply count_all in Ezero; [|apply specv_len].
+        split; [apply (proj1 zeros_is)|]. intros i Hi. rewrite (proj2 zeros_is) by auto. symmetry.
+        apply spec_par_zero. rewrite existsb_app. simpl.
+        pose proof (forallb_nth _ _ i Ezero) as Hn. rewrite specv_len, specv_nth in Hn by auto. rewrite Hn by auto.
+        rewrite orb_true_r. auto.
+      * destruct (Nat.ltb 0 (count ez_is_zero (specv c))) eqn:Ez2.
+        -- pose proof (PInv_snoc_path P sh paths no c HI Einf2 Hnot) as HI'.
+           destruct (forallb (fun b => b) _) eqn:Eall; simpl in H.
+           ++ inversion H; subst v. split; [apply (proj1 zeros_is)|]. intros i Hi. rewrite (proj2 zeros_is) by auto. symmetry.
+              apply spec_par_zero. rewrite Hassoc, existsb_app. destruct HI' as [L1 L2 _ _ _].
+              rewrite <- L2 by auto. rewrite forallb_id_nth; auto. lia.
+           ++ rewrite Hassoc in *. eapply IH; eauto.
+        -- simpl in H. pose proof (PInv_snoc_path P sh paths no c HI Einf2 Hnot) as HI'.
+           rewrite (sh_or_nozero sh c (pi_len _ _ _ _ HI) Ez2) in HI'.
+           rewrite Hassoc in *. eapply IH; eauto.
+Qed.
+
+Theorem impl_sound : forall t v, impl t = Ok v -> v = specv t.
+Proof.
+  induction t as [id|l IHl|l IHl] using ctree_ind2; intros v H.
+  - simpl in H. inversion H; subst v. apply vec_is_eq. split; [apply leaf_len|]. intros i Hi. reflexivity.
+  - rewrite impl_ser in H. rewrite Forall_forall in IHl.
+    assert (Hc : forall c, In c l -> forall z, impl c = Ok z -> vec_is z (fun i => spec c (leaf_at i))).
+    { intros c Hin z Hz. rewrite (IHl c Hin z Hz). apply specv_is. }
+    pose proof (ser_loop_sound l (zeros n) (fun _ => Zf k0) v Hc zeros_is H) as Hv.
+    apply vec_is_eq in Hv. rewrite Hv. reflexivity.
+  - destruct l as [|c r].
+    + simpl in H. inversion H; subst v. apply vec_is_eq. split; [apply (proj1 zeros_is)|].
+      intros i Hi. rewrite (proj2 zeros_is) by auto. reflexivity.
+    + rewrite impl_par in H. rewrite Forall_forall in IHl.
+      assert (HI : PInv [] (repeat false n) [] 0).
+      { constructor; simpl; auto; try (apply repeat_length); try (intros i Hi; apply nth_repeat); try (intros c0 []). }
+      pose proof (par_loop_sound (length (c :: r)) (c :: r) [] (repeat false n) [] 0 v IHl HI eq_refl) as Hv.
+      simpl app in Hv. specialize (Hv ltac:(discriminate) H). apply vec_is_eq in Hv. exact Hv.
+Qed.
 End Facts.
+
+(* ---- consequences stated without the section variables ------------------------------------------------ *)
+Section Consequences.
+Variable K : Type.
+Variable k0 : K.
+Variable kadd : K -> K -> K.
+Variable kinv : K -> K.
+Variable kis0 : K -> bool.
+
+Lemma spec_ext t : forall (l1 l2 : nat -> ez K), (forall id, l1 id = l2 id) ->
+  spec K k0 kadd kinv kis0 t l1 = spec K k0 kadd kinv kis0 t l2.
+Proof.
+  induction t as [id|l IHl|l IHl] using ctree_ind2; intros l1 l2 Hl.
+  - simpl. auto.
+  - simpl. generalize (@Zf K k0). induction l as [|c r IHr]; intro acc; simpl; auto.
+    inversion IHl; subst. rewrite (H1 l1 l2 Hl). apply IHr. auto.
+  - destruct l as [|c r]; auto.
+    assert (Hm : map (fun c0 => spec K k0 kadd kinv kis0 c0 l1) (c :: r) = map (fun c0 => spec K k0 kadd kinv kis0 c0 l2) (c :: r)).
+    { apply map_ext_in. intros a Ha. rewrite Forall_forall in IHl. apply IHl; auto. }
+    change (spec K k0 kadd kinv kis0 (CPar (c :: r)) l1) with
+      (let vals := map (fun c0 => spec K k0 kadd kinv kis0 c0 l1) (c :: r) in
+       if existsb (ez_is_zero K kis0) vals then Zf k0
+       else match filter (fun v => negb (ez_is_inf K v)) vals with
+            | [] => Inf
+            | _ => ez_inv K k0 kinv kis0 (fold_left (fun acc v => ez_add K kadd acc (ez_inv K k0 kinv kis0 v)) (filter (fun v => negb (ez_is_inf K v)) vals) (Zf k0))
+            end).
+    change (spec K k0 kadd kinv kis0 (CPar (c :: r)) l2) with
+      (let vals := map (fun c0 => spec K k0 kadd kinv kis0 c0 l2) (c :: r) in
+       if existsb (ez_is_zero K kis0) vals then Zf k0
+       else match filter (fun v => negb (ez_is_inf K v)) vals with
+            | [] => Inf
+            | _ => ez_inv K k0 kinv kis0 (fold_left (fun acc v => ez_add K kadd acc (ez_inv K k0 kinv kis0 v)) (filter (fun v => negb (ez_is_inf K v)) vals) (Zf k0))
+            end).
+    cbv zeta. rewrite Hm. auto.
+Qed.
+
+(* array evaluation and one-at-a-time evaluation agree wherever both return *)
+Theorem vector_eq_pointwise leafv n t v i x :
+  (forall id, length (leafv id) = n) -> i < n ->
+  impl K k0 kadd kinv kis0 leafv n t = Ok v ->
+  impl K k0 kadd kinv kis0 (fun id => [nth i (leafv id) Inf]) 1 t = Ok [x] ->
+  nth i v Inf = x.
+Proof.
+  intros Hlen Hi Hv Hx.
+  apply (impl_sound K k0 kadd kinv kis0 leafv n Hlen) in Hv.
+  apply (impl_sound K k0 kadd kinv kis0 (fun id => [nth i (leafv id) Inf]) 1 (fun _ => eq_refl)) in Hx.
+  subst v. unfold specv in *. simpl in Hx. inversion Hx as [Hx'].
+  rewrite (nth_map_d _ _ 0) by (rewrite seq_length; auto). rewrite seq_nth by auto. simpl.
+  apply spec_ext. intro id. unfold leaf_at. simpl. auto.
+Qed.
+End Consequences.
